@@ -186,6 +186,21 @@ def check_election(ctx, case, small, objs=None):
             if not close(spP.total_satisfaction(Sp), spM.total_satisfaction(Sp)):
                 vs.append(violation(f"{s}: total satisfaction differs between profile and multiprofile", case, {"call": "total_satisfaction", "sat": s}, sig={"call": "total_satisfaction", "sat": s}))
                 break
+        # `remove_satisfied` (the voters whose satisfaction with a set stays below a bound) on both forms: the same number of
+        # voters, with the same total satisfaction, remain (round 7, C06-r7B: multiplicities reset while filtering a multiprofile)
+        try:
+            bound = {nm: rng.choice([0, 1, 1, 2, 3]) for nm in {sp.ballot.name for sp in spP} | {sm.ballot.name for sm in spM}}
+            Sp = [projs[n] for n in subsets[rng.randrange(len(subsets))]]
+            rP, rM = spP.remove_satisfied(bound, Sp), spM.remove_satisfied(bound, Sp)
+            nP, nM = sum(rP.multiplicity(x) for x in rP), sum(rM.multiplicity(x) for x in rM)
+            allp = [projs[n] for n in case.names]
+            if nP != nM or type(rM) is not type(spM) or not close(rP.total_satisfaction(allp), rM.total_satisfaction(allp)):
+                vs.append(violation(f"{s}: remove_satisfied leaves {nM} voters (total satisfaction {rM.total_satisfaction(allp)}) of the multiprofile and "
+                                    f"{nP} ({rP.total_satisfaction(allp)}) of the profile", case, {"call": "remove_satisfied", "sat": s},
+                                    sig={"call": "remove_satisfied", "sat": s}))
+            ctx.count("remove_satisfied", "non-empty" if nP else "empty")
+        except Exception as e:  # noqa: BLE001
+            vs.append(violation(f"{s}: remove_satisfied raised {e!r}", case, {"call": "remove_satisfied", "sat": s}, sig={"call": "remove_satisfied", "sat": s, "err": type(e).__name__}))
     # analysis functions
     calls = analysis_calls(case, inst, projs, rng)
     if small:
@@ -597,6 +612,19 @@ def run(ctx, n_rules=None, n_el=None, compare=True, n_hist=None):
         if sP != sM:
             ctx.violations.append(violation("rule outcome differs between profile and multiprofile", case, cfg, impl=sM, expected=sP,
                                             sig={"call": "rule:" + cfg["rule"], "sat": cfg.get("sat")}))
+        if cfg["rule"] in ("mes", "greedy") and cfg.get("sat") and not cfg.get("sp_sat") and ctx.rng.random() < 0.3:
+            # the two representations MIXED in one call: the list profile together with the satisfaction multiprofile of the same
+            # electorate, and the reverse (round 7, C06-r7A / C07-r7A: multiplicities taken from the wrong one of the two)
+            mixed = dict(cfg, sp_sat=cfg["sat"], sp_repr="other", sp_only=True)
+            for b, label in ((bP, "list profile + satisfaction multiprofile"), (bM, "multiprofile + satisfaction list profile"),
+                             (bP, "list profile + satisfaction multiprofile built from it"), (bM, "multiprofile + satisfaction multiprofile built from the list")):
+                cX = dict(mixed, sp_repr="direct-multi") if "built from" in label else dict(mixed)
+                rulegen.fix_loads(cX, b)
+                sX = rules.canon(rules.impl_answer(b, cX)[0])
+                ctx.count("mixed_representation", label)
+                if sX != sP:
+                    ctx.violations.append(violation(f"rule outcome with {label} differs from the outcome on the list profile", case, mixed, impl=sX, expected=sP,
+                                                    sig={"call": "rule-mixed:" + cfg["rule"], "sat": cfg.get("sat")}))
         if compare:
             lines.append(rules.model_line(bM, cM))
             info.append((sP, case, cfg))
